@@ -30,6 +30,12 @@ func tfSchema() *schema.BodySchema {
 				"any":  {IsOptional: true, Constraint: schema.AnyExpression{OfType: cty.String}},
 				"dyn":  {IsOptional: true, Constraint: schema.AnyExpression{OfType: cty.DynamicPseudoType}},
 				"nums": {IsOptional: true, Constraint: schema.AnyExpression{OfType: cty.Number}},
+				"elem": {IsOptional: true, Constraint: schema.AnyExpression{OfType: cty.DynamicPseudoType}},
+				"ev":   {IsOptional: true, Constraint: schema.AnyExpression{OfType: cty.DynamicPseudoType}},
+				"sz":   {IsOptional: true, Constraint: schema.AnyExpression{OfType: cty.DynamicPseudoType}},
+				// computed-only (not meant to be set, but decoded like any other attribute when it is)
+				"arn": {IsComputed: true, Constraint: schema.AnyExpression{OfType: cty.DynamicPseudoType}},
+				"ci":   {IsOptional: true, Constraint: schema.AnyExpression{OfType: cty.Number}},
 				"refs": {IsOptional: true, Constraint: schema.List{Elem: schema.Reference{OfScopeId: "variable"}}},
 				"obj": {IsOptional: true, Constraint: schema.Object{Attributes: schema.ObjectAttributes{
 					"first":  {IsOptional: true, Constraint: schema.AnyExpression{OfType: cty.String}},
@@ -75,12 +81,14 @@ func tfSchema() *schema.BodySchema {
 				Attributes: map[string]*schema.AttributeSchema{
 					"region": {IsOptional: true, Constraint: schema.AnyExpression{OfType: cty.String}},
 					"zone":   {IsRequired: true, Constraint: schema.LiteralType{Type: cty.String}},
+					"size":   {IsOptional: true, Constraint: schema.LiteralType{Type: cty.Number}}, // (a string for the other type)
 				},
 			},
 			schema.NewSchemaKey(schema.DependencyKeys{Labels: []schema.LabelDependent{{Index: 0, Value: "gcp"}}}): {
 				Detail: "GCP thing",
 				Attributes: map[string]*schema.AttributeSchema{
 					"project": {IsOptional: true, Constraint: schema.AnyExpression{OfType: cty.String}},
+					"size":    {IsOptional: true, Constraint: schema.LiteralType{Type: cty.String}},
 					"labels":  {IsRequired: true, Constraint: schema.Map{Elem: schema.LiteralType{Type: cty.String}}},
 					"title":   {IsRequired: true, Constraint: schema.LiteralType{Type: cty.String}},
 				},
@@ -333,6 +341,9 @@ func (g *tfGen) resource(i int) {
 			cv = g.refText("count", "variable", true)
 		}
 		fmt.Fprintf(&g.sb, "  count = %s\n", cv)
+		// the name count declares, used in this block (no random draw)
+		g.refs = append(g.refs, TfRef{Addr: "count.index", Attr: "ci", Declared: true, AdmitsRef: true})
+		fmt.Fprintf(&g.sb, "  ci = count.index\n")
 	}
 	if r.Intn(2) == 0 {
 		w("str", fmt.Sprintf("%q", pick(r, []string{"x", "größe", "a b"})))
@@ -392,6 +403,10 @@ func (g *tfGen) resource(i int) {
 		a := g.refText("for_each", "", true)
 		g.refs = append(g.refs, g.refs[len(g.refs)-1])
 		fmt.Fprintf(&g.sb, "  for_each = %s == %s ? {} : {}\n", a, a)
+		// the names for_each declares, used in this block (no random draw)
+		ev := []string{"each.value", "each.key"}[i%2]
+		g.refs = append(g.refs, TfRef{Addr: ev, Attr: "ev", Declared: true, AdmitsRef: true})
+		fmt.Fprintf(&g.sb, "  ev = %s\n", ev)
 	}
 	if r.Intn(4) == 0 {
 		// a literal-only place: references written here must NOT become origins
@@ -404,6 +419,18 @@ func (g *tfGen) resource(i int) {
 		txt := "self." + d.Attrs[r.Intn(len(d.Attrs))]
 		g.refs = append(g.refs, TfRef{Addr: txt, Attr: "nums", Declared: true, AdmitsRef: true})
 		fmt.Fprintf(&g.sb, "  nums = %s\n", txt)
+	}
+	if i%3 != 2 && len(g.decls) > 0 && g.decls[0].Kind == "variable" {
+		// a computed-only attribute set anyway, holding a reference (no random draw)
+		g.refs = append(g.refs, TfRef{Addr: g.decls[0].Addr, Attr: "arn", Declared: true, AdmitsRef: true})
+		w("arn", g.decls[0].Addr)
+	}
+	if i%2 == 0 {
+		// an attribute both resource types declare, with different types, and a self reference to it (no random draw)
+		// (a number literal is a declaration under either type: it converts to a string)
+		fmt.Fprintf(&g.sb, "  size = 1\n")
+		g.refs = append(g.refs, TfRef{Addr: "self.size", Attr: "sz", Declared: true, AdmitsRef: true})
+		fmt.Fprintf(&g.sb, "  sz = self.size\n")
 	}
 	if typ == "aws" {
 		fmt.Fprintf(&g.sb, "  zone = %q\n", "z1")
@@ -426,12 +453,20 @@ func (g *tfGen) resource(i int) {
 	if r.Intn(3) == 0 {
 		fmt.Fprintf(&g.sb, "  opts {\n    flag = true\n    via = %s\n  }\n", nestedVal("via"))
 	}
+	items := 0
 	for k, n := 0, r.Intn(3); k < n; k++ {
 		extra := ""
 		if r.Intn(3) == 0 {
 			extra = "    count = 2\n"
 		}
 		fmt.Fprintf(&g.sb, "  item {\n    val = %s\n%s  }\n", nestedVal("val"), extra)
+		items++
+	}
+	if items > 0 {
+		// a self reference into an element of a nested list block (no random draw: the streams stay as they were)
+		txt := "self.item[0]." + []string{"val", "note", "zeta"}[(i+items)%3]
+		g.refs = append(g.refs, TfRef{Addr: txt, Attr: "elem", Declared: true, AdmitsRef: true})
+		fmt.Fprintf(&g.sb, "  elem = %s\n", txt)
 	}
 	if r.Intn(4) == 0 {
 		fmt.Fprintf(&g.sb, "  entry %q {\n    val = \"e\"\n  }\n", pick(r, []string{"k1", "größe"}))
